@@ -125,7 +125,7 @@ func pick(all [][]byte, n int, rng *rand.Rand, contiguous bool) [][]byte {
 }
 
 // Names lists the palette kinds.
-var Names = []string{"single", "prefix", "long", "ff", "random", "mid"}
+var Names = []string{"single", "prefix", "long", "ff", "random", "mid", "huge"}
 
 // New builds palette kind name for K keys.
 func New(name string, k int, seed int64) *Palette {
@@ -169,6 +169,15 @@ func New(name string, k int, seed int64) *Palette {
 		}
 		p.vals = [][]byte{{}}
 		for _, l := range []int{127, 128, 129, 200, 255, 256, 300} {
+			p.vals = append(p.vals, bytes.Repeat([]byte{byte('a' + l%7)}, l))
+		}
+	case "huge":
+		// short keys, values whose length prefix sits at the two-byte / three-byte varint boundary (16383, 16384)
+		// and around 64 KiB (65535, 65536, 70000): the format has no length limit
+		all := enumerate([]byte{0x00, 0x01, 'h', 0xff}, 3)
+		p.pos = pick(all, n, rng, rng.Intn(2) == 0)
+		p.vals = [][]byte{{}}
+		for _, l := range []int{16383, 16384, 65535, 65536, 70000, 3, 40000} {
 			p.vals = append(p.vals, bytes.Repeat([]byte{byte('a' + l%7)}, l))
 		}
 	case "ff":
